@@ -545,3 +545,113 @@ pub fn drive_c15(seed: u64, thorough: bool, out: &mut dyn Write) -> usize {
     }
     e.id
 }
+
+fn days_in_month(y: i32, m: u32) -> u32 {
+    match m {
+        1 | 3 | 5 | 7 | 8 | 10 | 12 => 31,
+        4 | 6 | 9 | 11 => 30,
+        _ => if (y % 4 == 0 && y % 100 != 0) || y % 400 == 0 { 29 } else { 28 },
+    }
+}
+
+/// RFC 3339 text written by the harness itself (no chrono involved)
+fn rfc3339_text(y: i32, mo: u32, d: u32, h: u32, mi: u32, s: u32, ns: u32, off_min: i32) -> String {
+    let frac = if ns == 0 { String::new() } else { format!(".{:09}", ns).trim_end_matches('0').to_string() };
+    let zone = if off_min == 0 { "Z".to_string() } else { format!("{}{:02}:{:02}", if off_min < 0 { '-' } else { '+' }, off_min.abs() / 60, off_min.abs() % 60) };
+    format!("{:04}-{:02}-{:02}T{:02}:{:02}:{:02}{}{}", y, mo, d, h, mi, s, frac, zone)
+}
+
+/// C16: timestamps keep their instant and calendar fields.
+pub fn drive_c16(seed: u64, thorough: bool, out: &mut dyn Write) -> usize {
+    let mut e = Emit { out, id: 0 };
+    let mut rng = Rng::new(seed);
+    let years = [1, 4, 100, 400, 1582, 1600, 1900, 1970, 2000, 2023, 2024, 2038, 2100, 9999];
+    let offsets: Vec<i32> = if thorough { (-48..=56).map(|q| q * 15).collect() } else { vec![-720, -345, -15, 0, 330, 840] };
+    let times = [(0u32, 0u32, 0u32, 0u32), (23, 59, 59, 999_999_999), (12, 30, 45, 123_000_000)];
+    let mut texts: Vec<String> = vec![];
+    for y in years {
+        for mo in 1..=12u32 {
+            for d in [1u32, days_in_month(y, mo)] {
+                for (h, mi, s, ns) in times {
+                    for off in &offsets {
+                        if !thorough && !(mo <= 3 || mo == 12 || rng.chance(1, 4)) {
+                            continue;
+                        }
+                        texts.push(rfc3339_text(y, mo, d, h, mi, s, ns, *off));
+                    }
+                }
+            }
+        }
+    }
+    // uniformly random instants, nanoseconds and offsets
+    for _ in 0..(if thorough { 20000 } else { 1500 }) {
+        let y = 1 + rng.below(9999) as i32;
+        let mo = 1 + rng.below(12) as u32;
+        let d = 1 + rng.below(days_in_month(y, mo) as usize) as u32;
+        texts.push(rfc3339_text(y, mo, d, rng.below(24) as u32, rng.below(60) as u32, rng.below(60) as u32,
+                                if rng.chance(1, 3) { 0 } else { rng.below(1_000_000_000) as u32 }, (rng.below(105) as i32 - 48) * 15));
+    }
+    let accessors = ["getFullYear", "getMonth", "getDayOfYear", "getDayOfMonth", "getDate", "getDayOfWeek", "getHours", "getMinutes", "getSeconds", "getMilliseconds"];
+    let sv = |x: &str| Value::String(Arc::new(x.to_string()));
+    let mut values: Vec<Value> = vec![];
+    for t in &texts {
+        let tv = sv(t);
+        let vars = vec![("a".to_string(), tv.clone())];
+        let o = prog_apply("timestamp(a)", &vars);
+        let parsed = if o["k"] == "v" { enc::unvalue(&o["v"]) } else { None };
+        e.rec("tsparse", "var", &tv, &Value::Null, "timestamp(a)", o);
+        let ts = match parsed { Some(v) => v, None => continue };
+        let vars = vec![("a".to_string(), ts.clone())];
+        for f in accessors {
+            let src = format!("a.{}()", f);
+            let o = prog_apply(&src, &vars);
+            e.rec(&format!("acc:{}", f), "var", &ts, &Value::Null, &src, o);
+        }
+        let o = prog_apply("string(a)", &vars);
+        e.rec("tsstr", "var", &ts, &Value::Null, "string(a)", o);
+        let o = prog_apply("timestamp(string(a)) == a", &vars);
+        e.rec("tsrt", "var", &ts, &Value::Null, "timestamp(string(a)) == a", o);
+        if values.len() < 400 || rng.chance(1, 20) {
+            values.push(ts);
+        }
+    }
+    // malformed / lenient spellings
+    for t in ["2024-02-30T00:00:00Z", "2023-02-29T00:00:00Z", "2024-13-01T00:00:00Z", "2024-00-10T00:00:00Z", "2024-01-01T24:00:00Z", "2024-01-01T00:60:00Z", "2024-01-01T23:59:60Z",
+              "2024-01-01T00:00:00", "2024-01-01 00:00:00Z", "2024-01-01t00:00:00z", "2024-01-01T00:00:00+24:00", "2024-01-01T00:00:00+0530", "2024-1-1T00:00:00Z", "24-01-01T00:00:00Z",
+              "2024-01-01T00:00:00.Z", "2024-01-01T00:00:00.1234567891Z", "2024-01-01T00:00:00.5+05:30", "", "now", "2024-01-01", "10000-01-01T00:00:00Z", "0000-01-01T00:00:00Z",
+              "2024-01-01T00:00:00-00:00", "2024-01-01T00:00:00Zx", " 2024-01-01T00:00:00Z", "2024-01-01T00:00:00+14:00", "1900-02-29T00:00:00Z", "2000-02-29T00:00:00Z", "2100-02-29T12:00:00Z"] {
+        let tv = sv(t);
+        let o = prog_apply("timestamp(a)", &[("a".to_string(), tv.clone())]);
+        e.rec("tsparse", "var", &tv, &Value::Null, "timestamp(a)", o);
+    }
+    // comparisons between instants (same instant at different offsets included) and arithmetic
+    let durs: Vec<Value> = [0i64, 1, -1, 1_000_000_000, -1_000_000_000, 86_400_000_000_000, -86_400_000_000_000, 3_600_000_000_000 * 24 * 365 * 292, -3_600_000_000_000 * 24 * 365 * 292,
+                            i64::MAX, i64::MIN + 1, 59_999_999_999, 31_622_400_000_000_000]
+        .iter().map(|n| Value::Duration(chrono::Duration::nanoseconds(*n))).collect();
+    let m = values.len();
+    for k in 0..(if thorough { 30000 } else { 2500 }) {
+        let a = &values[rng.below(m)];
+        let b = if k % 3 == 0 {
+            // the same instant rendered at another offset
+            match a {
+                Value::Timestamp(t) => Value::Timestamp(t.with_timezone(&chrono::FixedOffset::east_opt(((rng.below(105) as i32) - 48) * 900).unwrap())),
+                _ => unreachable!(),
+            }
+        } else {
+            values[rng.below(m)].clone()
+        };
+        for op in ["eq", "ne", "lt", "le", "gt", "ge", "sub"] {
+            e.binary(op, a, &b, op == "sub", false);
+        }
+        let d = &durs[rng.below(durs.len())];
+        e.binary("add", a, d, true, false);
+        e.binary("add", d, a, true, false);
+        e.binary("sub", a, d, true, false);
+        let vars = vec![("a".to_string(), a.clone()), ("b".to_string(), d.clone())];
+        let o = prog_apply("a + b - b == a", &vars);
+        e.rec("tslaw1", "var", a, d, "a + b - b == a", o);
+        let o = prog_apply("(a + b) - a == b", &vars);
+        e.rec("tslaw2", "var", a, d, "(a + b) - a == b", o);
+    }
+    e.id
+}
